@@ -62,6 +62,21 @@ type c08Model struct {
 	fresh uint64 // counter for harness-chosen fresh labels
 }
 
+// open returns the indices of the versions without children (the open leaves), ascending.
+func (m *c08Model) open() []int {
+	has := map[int]bool{}
+	for _, v := range m.vers {
+		has[v.parent] = true
+	}
+	var out []int
+	for i := range m.vers {
+		if !has[i] {
+			out = append(out, i)
+		}
+	}
+	return out
+}
+
 func (v *c08Version) body(sv uint64) uint64 {
 	if sv == 0 {
 		return 0
@@ -298,6 +313,14 @@ func c08Alphabet(m *c08Model, thorough bool) []c08Op {
 		}
 	}
 	ops = append(ops, c08Op{K: "newversion"}, c08Op{K: "branch"})
+	// two open versions at once: "fork" opens a sibling of the current leaf (a second child of its committed parent) and
+	// moves there; "switch" moves the focus to another open version. Later operations then alternate between siblings.
+	if v.parent >= 0 && len(m.open()) < 3 {
+		ops = append(ops, c08Op{K: "fork"})
+	}
+	if len(m.open()) > 1 {
+		ops = append(ops, c08Op{K: "switch"})
+	}
 	return ops
 }
 
@@ -560,6 +583,32 @@ func (w *c08World) apply(op c08Op) (code int, desc string, viols []c08Viol) {
 		w.uuids = append(w.uuids, child)
 		m.leaf = len(m.vers) - 1
 		code, desc = 200, "child "+child
+	case "fork":
+		p := v.parent
+		if p < 0 {
+			return 400, "the root has no sibling", viols
+		}
+		child, err := vsrv.Branch(w.uuids[p], fmt.Sprintf("f%d", len(w.uuids)))
+		if err != nil {
+			return 500, err.Error(), viols
+		}
+		m.vers = append(m.vers, m.vers[p].clone(p))
+		w.uuids = append(w.uuids, child)
+		m.leaf = len(m.vers) - 1
+		code, desc = 200, "sibling "+child
+	case "switch":
+		open := m.open()
+		next := open[len(open)-1] // the open version before the current one, cyclically
+		for _, i := range open {
+			if i < m.leaf {
+				next = i
+			}
+		}
+		if next == m.leaf {
+			return 400, "no other open version", viols
+		}
+		m.leaf = next
+		code, desc = 200, fmt.Sprintf("focus on version %d", next)
 	}
 	vsrv.Settle(w.uuids[m.leaf], "lm")
 	w.remember()
@@ -585,6 +634,7 @@ func (w *c08World) canon() string {
 			}
 		}
 	}
+	fmt.Fprintf(h, "focus%d", w.m.leaf)
 	return fmt.Sprintf("%x/%d", h.Sum64(), len(w.m.vers))
 }
 
@@ -976,7 +1026,9 @@ func runC08(c *vlib.Ctx) {
 			frontier = append(frontier,
 				[]c08Op{{K: "merge", A: 1, B: []uint64{2}}, {K: "cleave", A: 1, B: []uint64{1}}},
 				[]c08Op{{K: "splitsv", A: 1, Shape: "half-in-block"}, {K: "merge", A: 2, B: []uint64{1}}},
-				[]c08Op{{K: "merge", A: 3, B: []uint64{5}}, {K: "newversion"}, {K: "renumber", A: 77, B: []uint64{3}}})
+				[]c08Op{{K: "merge", A: 3, B: []uint64{5}}, {K: "newversion"}, {K: "renumber", A: 77, B: []uint64{3}}},
+				// two open siblings that both re-mapped a supervoxel already mapped by their parent; focus back on the older one
+				[]c08Op{{K: "merge", A: 1, B: []uint64{2}}, {K: "newversion"}, {K: "cleave", A: 1, B: []uint64{2}}, {K: "fork"}, {K: "cleave", A: 1, B: []uint64{2}}, {K: "switch"}})
 		}
 		for lvl := 1; lvl <= d && len(frontier) > 0; lvl++ {
 			jobs := make([]string, len(frontier))
@@ -1029,7 +1081,7 @@ func runC08(c *vlib.Ctx) {
 				for _, p := range next {
 					only := true
 					for _, o := range p {
-						if o.K != "newversion" && o.K != "branch" {
+						if o.K != "newversion" && o.K != "branch" && o.K != "fork" {
 							only = false
 						}
 					}
@@ -1049,7 +1101,7 @@ func runC08(c *vlib.Ctx) {
 	c.Set("transitions", transitions)
 	c.Set("traces_validated_against_impl", transitions)
 	c.Set("read_requests", reads)
-	c.Set("bound", fmt.Sprintf("BFS depth %d (big-label layout: %d) over merge / cleave / split-supervoxel (6 shapes) / renumber / mutating raw writes (3 regions x 3 fills) / newversion / branch, valid and invalid arguments, on a 32x32x16 volume of 16^3 blocks; plus 3 deep roots (namesake supervoxel cleaved away, split remainder merged elsewhere, renumbered merge target in a child version) expanded 1 level (thorough 2)", depth, depth-1))
+	c.Set("bound", fmt.Sprintf("BFS depth %d (big-label layout: %d) over merge / cleave / split-supervoxel (6 shapes) / renumber / mutating raw writes (3 regions x 3 fills) / newversion / branch, valid and invalid arguments, on a 32x32x16 volume of 16^3 blocks; fork (second open child of the leaf's parent) / switch (focus on another open version); plus 4 deep roots (namesake supervoxel cleaved away, split remainder merged elsewhere, renumbered merge target in a child version, two open siblings that both re-mapped a supervoxel mapped by their parent) expanded 1 level (thorough 2)", depth, depth-1))
 	c.Sample(map[string]interface{}{"history": "merge(1[4]) cleave(1[4]) splitsv(2,cross-border)", "checked": "all versions: raw, raw?supervoxels, mapping, size, sizes, supervoxels, supervoxel-sizes, sparsevol, sparsevol-size, sparsevol-coarse, index, labels (every voxel), label, maxlabel; ghost bodies"})
 	c.Set("rule", "state = reference model (supervoxel array + mapping per version) reached by a history; transition = one real request followed by runtime-level quiescence; after every transition every read endpoint of every version is compared with the scan of stored supervoxels + mapping, and the scan with the reference model")
 	c.Assume("body split (/split) is disabled in the default server configuration and not part of the alphabet")
